@@ -125,6 +125,7 @@ var _ = ws.StateServerSide
 //@ func NewCipherWriter
 //@   props C02 C18
 //@   ensures [new] result.w == w && result.mask == mask && result.pos == 0
+//@   ensures  [nonnil] result != nil
 //@   assigns nothing
 
 //@ func CipherWriter.Reset
@@ -210,6 +211,7 @@ func lemmaReserve(state ws.State, size int, pay int) bool {
 //@   ensures  [new]  result.dest == dest && result.state == state && result.op == op && sameSlice(result.raw, buf)
 //@   ensures  [zero] result.n == 0 && !result.dirty && result.fseq == 0 && len(result.extensions) == 0 && !result.noFlush && result.err == nil
 //@   ensures  [inv]  invWriter(result)
+//@   ensures  [nonnil] result != nil
 //@   assigns nothing
 
 //@ func Writer.Reset
@@ -399,7 +401,7 @@ func clientSide(s ws.State) bool { return s&ws.StateClientSide != 0 }
 //@   call Writer.Available inline
 //@   call Writer.Buffered inline
 //@   cases fit: w.err == nil && len(p) <= len(w.buf)-w.n | !(w.err == nil) | w.err == nil && !(len(p) <= len(w.buf)-w.n)
-//@   ensures  [dead]  old(w.err) != nil ==> n == 0 && err == old(w.err) && outCalls(w.dest) == old(outCalls(w.dest))
+//@   ensures  [dead]  old(w.err) != nil ==> n == 0 && err == old(w.err) && outCalls(w.dest) == old(outCalls(w.dest)) && w.n == old(w.n) && sameSlice(w.buf, old(w.buf)) && w.fseq == old(w.fseq)
 //@   ensures  [ok]    err == nil ==> n == len(p)
 //@   ensures  [n]     0 <= n && n <= len(p) && err == w.err
 //@   ensures  [fit]   old(w.err) == nil && len(p) <= old(len(w.buf)-w.n) ==> n == len(p) && w.n == old(w.n)+len(p) && outCalls(w.dest) == old(outCalls(w.dest)) && w.fseq == old(w.fseq) && sameSlice(w.buf, old(w.buf))
@@ -417,3 +419,63 @@ func clientSide(s ws.State) bool { return s&ws.StateClientSide != 0 }
 //@   loop 1 invariant [first] (old(w.err) != nil || len(old(p)) <= old(len(w.buf)-w.n)) ==> n == 0 && w.fseq == old(w.fseq) && w.n == old(w.n) && sameSlice(w.buf, old(w.buf)) && sameSlice(w.raw, old(w.raw)) && w.err == old(w.err) && outCalls(w.dest) == old(outCalls(w.dest)) && forall(0, w.n, func(k int) bool { return w.buf[k] == old(w.buf[k]) })
 //@   loop 1 invariant [sep] notPartOf(p, w) && !sameBase(p, w.raw) && (sameSlice(w.raw, old(w.raw)) || fresh(w.raw))
 //@   loop 1 invariant [keep] forall(0, old(outLen(w.dest)), func(k int) bool { return outByte(w.dest, k) == old(outByte(w.dest, k)) }) && outLen(w.dest) >= old(outLen(w.dest)) && outCalls(w.dest) >= old(outCalls(w.dest))
+
+//@ func NewWriterBufferSize
+//@   props C06 C18
+//@   requires [n] n <= 1<<40 && op < 16 && DefaultWriteBuffer > 14 && DefaultWriteBuffer <= 1<<40 && (n <= 2 || n > specReserve(state, n))
+//@   ensures  [new]  result.dest == dest && result.state == state && result.op == op && fresh(result.raw)
+//@   ensures  [size] len(result.raw) == iteInt(n <= 2, DefaultWriteBuffer, n)
+//@   ensures  [zero] result.n == 0 && !result.dirty && result.fseq == 0 && len(result.extensions) == 0 && !result.noFlush && result.err == nil
+//@   ensures  [inv]  invWriter(result)
+//@   ensures  [nonnil] result != nil
+//@   assigns nothing
+
+//@ func NewWriterSize
+//@   props C06 C08 C18
+//@   requires [n] n <= 1<<39 && op < 16 && DefaultWriteBuffer > 14 && DefaultWriteBuffer <= 1<<40
+//@   ensures  [new]  result.dest == dest && result.state == state && result.op == op && fresh(result.raw)
+//@   ensures  [size] n > 0 ==> len(result.buf) == n
+//@   ensures  [zero] result.n == 0 && !result.dirty && result.fseq == 0 && len(result.extensions) == 0 && !result.noFlush && result.err == nil
+//@   ensures  [inv]  invWriter(result)
+//@   ensures  [nonnil] result != nil
+//@   assigns nothing
+
+//@ func NewWriter
+//@   props C06 C18
+//@   requires [n] op < 16 && DefaultWriteBuffer > 14 && DefaultWriteBuffer <= 1<<40
+//@   ensures  [new]  result.dest == dest && result.state == state && result.op == op && fresh(result.raw)
+//@   ensures  [zero] result.n == 0 && !result.dirty && result.fseq == 0 && len(result.extensions) == 0 && !result.noFlush && result.err == nil
+//@   ensures  [inv]  invWriter(result)
+//@   ensures  [nonnil] result != nil
+//@   assigns nothing
+
+// ---------------------------------------------------------------------------
+// Control frame writer (C08).
+
+func invControlWriter(c *ControlWriter) bool {
+	return c.w != nil && invWriter(c.w) && !c.w.noFlush && len(c.w.extensions) == 0 && c.w.dest != nil &&
+		c.limit == len(c.w.buf) && c.limit <= 125 && c.n == c.w.n && c.w.fseq == 0 && 0 <= c.n && c.n <= c.limit
+}
+
+//@ func NewControlWriter
+//@   props C08
+//@   requires [op] op < 16 && dest != nil && DefaultWriteBuffer > 14 && DefaultWriteBuffer <= 1<<40
+//@   ensures  [inv] invControlWriter(result) && result.n == 0 && result.w.dest == dest && result.w.op == op && result.w.state == state && result.w.err == nil && !result.w.dirty
+//@   ensures  [nonnil] result != nil
+//@   assigns nothing
+
+//@ func ControlWriter.Write
+//@   props C08
+//@   requires [inv] invControlWriter(c) && len(p) <= 1<<40 && notPartOf(p, c.w) && !sameBase(p, c.w.raw)
+//@   ensures  [overflow] old(c.n)+len(p) > c.limit ==> n == 0 && err == ErrControlOverflow && outCalls(c.w.dest) == old(outCalls(c.w.dest)) && c.n == old(c.n) && c.w.n == old(c.w.n)
+//@   ensures  [count] c.n == old(c.n)+n
+//@   ensures  [nofrag] outCalls(c.w.dest) == old(outCalls(c.w.dest))
+//@   ensures  [inv] invControlWriter(c)
+//@   assigns c.n, *c.w, bytes(c.w.raw), stream(c.w.dest)
+
+//@ func ControlWriter.Flush
+//@   props C08
+//@   requires [inv] invControlWriter(c)
+//@   ensures  [one]  outCalls(c.w.dest) <= old(outCalls(c.w.dest))+1
+//@   ensures  [final] outCalls(c.w.dest) == old(outCalls(c.w.dest))+1 && result == nil ==> outByte(c.w.dest, old(outLen(c.w.dest))) == 0x80|byte(c.w.op) && outLen(c.w.dest) == old(outLen(c.w.dest))+specHdrLen(old(c.w.n), clientSide(c.w.state))+old(c.w.n) && old(c.w.n) <= 125
+//@   assigns *c.w, bytes(c.w.raw), stream(c.w.dest)
